@@ -32,7 +32,7 @@ PROPS = {
     "C11": dict(props="Props/C11.v", runner="conc",
                 families=["churn", "seqchurn", "mixed"], scenarios=["s10", "s17"], late=True),
     "C12": dict(props="Props/C12.v", runner="conc",
-                families=["multi", "mixed"], scenarios=["s06", "s11"]),
+                families=["multi", "mixed"], scenarios=["s06", "s11"], typed=True),
     "C13": dict(props="Props/C13.v", runner="conc",
                 families=["wrap", "basic", "helping"], scenarios=["s15", "s23"]),
     "C14": dict(props="Props/C14.v", runner="seq"),
